@@ -93,6 +93,10 @@ class Run:
             raise AnalysisError(f"instance floor: {what}: measured {measured} < confirmed {minimum}")
 
     # -- finish --------------------------------------------------------------
+    def unlisted_findings(self) -> List["Finding"]:
+        known = load_known(self.prop)
+        return [f for f in self.findings if not any(k["rule"] == f.rule and k["construct"] == f.construct and k["key"] == f.key for k in known)]
+
     def finish(self, model=None) -> int:
         known = load_known(self.prop)
         violations: List[Finding] = []
